@@ -434,6 +434,22 @@ type c02RawCase struct {
 	// ViaMessage: the signer layer is signed through SignMessage.Sign (body RawProtected on the message)
 	ViaMessage bool `json:"via_message,omitempty"`
 	MirrorMap  bool `json:"mirror_map,omitempty"`
+	// Framed: the body's protected item and the payload are two windows of ONE buffer of the caller
+	// (protected item first, content right behind it), as a caller that frames its own messages holds them
+	Framed bool `json:"framed,omitempty"`
+	// Annotated: the Protected map next to the raw bytes carries one more entry than the raw bytes (an
+	// application note); the documentation says the map is ignored when RawProtected is set
+	Annotated bool `json:"annotated,omitempty"`
+}
+
+// frame lays the protected item and the payload out in one buffer and returns the two windows.
+func (c *c02RawCase) frame() (frame, rawProt, payload []byte) {
+	if !c.Framed {
+		return nil, append([]byte{}, c.RawProt...), c.Payload
+	}
+	frame = append(append([]byte{}, c.RawProt...), c.Payload...)
+	n := len(c.RawProt)
+	return frame, frame[:n], frame[n:]
 }
 
 func checkC02Raw(c c02RawCase) error {
@@ -444,13 +460,38 @@ func checkC02Raw(c c02RawCase) error {
 		return fmt.Errorf("bad case: %v", err)
 	}
 	var want []byte
+	frame, rawProt, payload := c.frame()
+	frameWas := append([]byte{}, frame...)
+	annotate := func(p cose.ProtectedHeader) cose.ProtectedHeader {
+		if c.Annotated {
+			if p == nil {
+				p = cose.ProtectedHeader{}
+			}
+			p["noted-by-the-application"] = int64(1)
+			stats.Class("raw/map-has-more-than-the-raw-bytes")
+		}
+		return p
+	}
+	if c.Framed {
+		stats.Class("raw/framed-in-one-caller-buffer")
+	}
 	if c.Kind == refcose.KSign1 {
-		m := &cose.Sign1Message{Headers: cose.Headers{RawProtected: append([]byte{}, c.RawProt...), Protected: bridge.ToProtected(c.Prot)}, Payload: c.Payload}
+		m := &cose.Sign1Message{Headers: cose.Headers{RawProtected: rawProt, Protected: annotate(bridge.ToProtected(c.Prot))}, Payload: payload}
 		if err := m.Sign(rnd, c.External, spy); err != nil {
 			stats.Class("refused/" + shortErr(err))
 			return nil
 		}
 		want = refcose.SigStructure1(bodyN.Content, c.External, c.Payload)
+		sv := &bridge.SpyVerifier{Alg: cose.Algorithm(c.Alg)}
+		if err := m.Verify(c.External, sv); err != nil {
+			return finding("spy-verify-error", "Sign1Message.Verify with an accepting spy failed right after Sign: %v", err)
+		}
+		if !bytes.Equal(sv.Last().Content, want) {
+			return finding("tbs-mismatch", "user-supplied raw protected bytes: the verifier was handed other bytes than the RFC structure\n got=%x\nwant=%x", sv.Last().Content, want)
+		}
+		if len(bodyN.Content) == 0 {
+			stats.Class("raw/empty-bucket-next-to-a-filled-map")
+		}
 	} else {
 		sigN, err := rc.Parse(c.SigProt)
 		if err != nil {
@@ -459,10 +500,11 @@ func checkC02Raw(c c02RawCase) error {
 		s := &cose.Signature{Headers: cose.Headers{RawProtected: append([]byte{}, c.SigProt...), Protected: bridge.ToProtected(c.SigMap)}}
 		if c.ViaMessage {
 			// through SignMessage.Sign / Verify with caller-supplied raw body header (map mirrored or left empty)
-			sm := &cose.SignMessage{Headers: cose.Headers{RawProtected: append([]byte{}, c.RawProt...)}, Payload: c.Payload, Signatures: []*cose.Signature{s}}
+			sm := &cose.SignMessage{Headers: cose.Headers{RawProtected: rawProt}, Payload: payload, Signatures: []*cose.Signature{s}}
 			if c.MirrorMap {
 				sm.Headers.Protected = bridge.ToProtected(c.Prot)
 			}
+			sm.Headers.Protected = annotate(sm.Headers.Protected)
 			if err := sm.Sign(rnd, c.External, spy); err != nil {
 				stats.Class("refused/" + shortErr(err))
 				return nil
@@ -475,14 +517,26 @@ func checkC02Raw(c c02RawCase) error {
 				return finding("tbs-mismatch", "SignMessage with caller-supplied RawProtected: signer and verifier were handed different bytes\n sign=%x\nverify=%x", spy.Last(), sv.Last().Content)
 			}
 			stats.Class("raw/SignMessage")
-		} else if err := s.Sign(rnd, spy, append([]byte{}, c.RawProt...), c.Payload, c.External); err != nil {
-			stats.Class("refused/" + shortErr(err))
-			return nil
+		} else {
+			if err := s.Sign(rnd, spy, rawProt, payload, c.External); err != nil {
+				stats.Class("refused/" + shortErr(err))
+				return nil
+			}
+			sv := &bridge.SpyVerifier{Alg: cose.Algorithm(c.Alg)}
+			if err := s.Verify(sv, rawProt, payload, c.External); err != nil {
+				return finding("spy-verify-error", "Signature.Verify with an accepting spy failed right after Sign: %v", err)
+			}
+			if !bytes.Equal(sv.Last().Content, spy.Last()) {
+				return finding("tbs-mismatch", "Signature.Sign / Verify with a caller-supplied protected item: signer and verifier were handed different bytes\n sign=%x\nverify=%x", spy.Last(), sv.Last().Content)
+			}
 		}
 		want = refcose.SigStructure(bodyN.Content, sigN.Content, c.External, c.Payload)
 		if !sigN.MinimalHead() {
 			stats.Class("raw/non-minimal-head")
 		}
+	}
+	if !bytes.Equal(frame, frameWas) {
+		return finding("caller-buffer-modified", "signing / verifying wrote into the caller's buffer that holds the protected item and, behind it, the content\n was=%x\n now=%x", frameWas, frame)
 	}
 	if spy.NCalls() != 1 {
 		return finding("signer-calls", "signer called %d times", spy.NCalls())
@@ -521,9 +575,15 @@ func TestC02_Raw(t *testing.T) {
 			}
 			return rc.Encode(rc.Bytes(content), ch)
 		}
+		c.Framed = rapid.IntRange(0, 2).Draw(rt, "framed") == 0
+		c.Annotated = rapid.IntRange(0, 2).Draw(rt, "annotated") == 0
 		if c.Kind == refcose.KSign1 {
 			c.Prot, _ = gen.Headers(rt, o)
 			c.RawProt = wrap(c.Prot)
+			if rapid.IntRange(0, 3).Draw(rt, "empty-raw") == 0 {
+				// the empty bucket in its shortest spelling, next to a map that names the algorithm
+				c.RawProt = rc.Hex{0x40}
+			}
 		} else {
 			bo := o
 			bo.Alg = nil
